@@ -248,7 +248,14 @@ func (c *GroupCoordinator) SyncGroup(ctx context.Context, req *kmsg.SyncGroupReq
 			c.mu.Unlock()
 			return mkErrResp(protocol.REBALANCE_IN_PROGRESS), nil
 		}
-		state.assignments = c.assignPartitions(ctx, state)
+		assigned, err := c.assignPartitions(ctx, state)
+		if err != nil {
+			// Without the partition counts no correct assignment can be computed.
+			// Leave the generation unassigned so the leader's retry computes it.
+			c.mu.Unlock()
+			return mkErrResp(protocol.COORDINATOR_NOT_AVAILABLE), nil
+		}
+		state.assignments = assigned
 		state.markStable()
 	}
 
@@ -947,10 +954,13 @@ func (c *GroupCoordinator) encodeMemberSubscriptions(state *groupState) []kmsg.J
 	return members
 }
 
-func (c *GroupCoordinator) assignPartitions(ctx context.Context, state *groupState) map[string][]assignmentTopic {
-	topics := c.collectTopicPartitions(ctx, state)
+func (c *GroupCoordinator) assignPartitions(ctx context.Context, state *groupState) (map[string][]assignmentTopic, error) {
+	topics, err := c.collectTopicPartitions(ctx, state)
+	if err != nil {
+		return nil, err
+	}
 	if len(state.members) == 0 {
-		return map[string][]assignmentTopic{}
+		return map[string][]assignmentTopic{}, nil
 	}
 
 	memberIDs := state.sortedMembers()
@@ -998,7 +1008,7 @@ func (c *GroupCoordinator) assignPartitions(ctx context.Context, state *groupSta
 		assignments[memberID] = memberAssignments
 	}
 
-	return assignments
+	return assignments, nil
 }
 
 func memberSubscribes(member *memberState, topic string) bool {
@@ -1030,7 +1040,7 @@ func sameTopicSet(a, b []string) bool {
 	return len(seen) == len(set)
 }
 
-func (c *GroupCoordinator) collectTopicPartitions(ctx context.Context, state *groupState) map[string][]int32 {
+func (c *GroupCoordinator) collectTopicPartitions(ctx context.Context, state *groupState) (map[string][]int32, error) {
 	subscriptions := make([]string, 0)
 	seen := make(map[string]struct{})
 	for _, member := range state.members {
@@ -1042,15 +1052,14 @@ func (c *GroupCoordinator) collectTopicPartitions(ctx context.Context, state *gr
 		}
 	}
 	if len(subscriptions) == 0 {
-		return map[string][]int32{}
+		return map[string][]int32{}, nil
 	}
 	meta, err := c.store.Metadata(ctx, subscriptions)
-	if err != nil || meta == nil {
-		result := make(map[string][]int32)
-		for _, topic := range subscriptions {
-			result[topic] = []int32{0}
-		}
-		return result
+	if err != nil {
+		return nil, fmt.Errorf("load topic metadata: %w", err)
+	}
+	if meta == nil {
+		return nil, fmt.Errorf("load topic metadata: no metadata returned")
 	}
 	result := make(map[string][]int32)
 	for _, topic := range meta.Topics {
@@ -1064,7 +1073,7 @@ func (c *GroupCoordinator) collectTopicPartitions(ctx context.Context, state *gr
 		sort.Slice(partitions, func(i, j int) bool { return partitions[i] < partitions[j] })
 		result[*topic.Topic] = partitions
 	}
-	return result
+	return result, nil
 }
 
 func encodeAssignment(topics []assignmentTopic) []byte {
